@@ -121,7 +121,9 @@ def run_tlc(spec_dir, module, cfg_text, work, files=None, workers=1, timeout=180
         except OSError:
             shutil.copy(src, dstp)
     open(os.path.join(d, name + ".cfg"), "w").write(cfg_text)
-    cmd = ["java", "-XX:+UseParallelGC", "-Xss256m"]
+    jtmp = os.path.join(d, "jtmp")   # SANY unpacks the standard modules into java.io.tmpdir on every run
+    os.makedirs(jtmp, exist_ok=True)
+    cmd = ["java", "-XX:+UseParallelGC", "-Xss256m", "-Djava.io.tmpdir=" + jtmp]
     if extra_java:
         cmd += extra_java
     cmd += ["-cp", "/opt/veriftools/tla/tla2tools.jar:/opt/veriftools/tla/CommunityModules-deps.jar", "tlc2.TLC",
@@ -139,6 +141,7 @@ def run_tlc(spec_dir, module, cfg_text, work, files=None, workers=1, timeout=180
     res = dict(rc=rc, out=out, dir=d, wall=dt, generated=int(m.group(1)) if m else 0, distinct=int(m.group(2)) if m else 0,
                completed=("Model checking completed" in out) or ("Finished in" in out and simulate is not None))
     shutil.rmtree(os.path.join(d, "md"), ignore_errors=True)
+    shutil.rmtree(jtmp, ignore_errors=True)
     return res
 
 
